@@ -34,6 +34,12 @@ func c20Kinds() []c20Kind {
 		{"counting", "SELECT k, sum(a) AS s, collect(d) AS ds FROM stream GROUP BY k, CountingWindow(2)", false, false},
 		{"tumbling", "SELECT k, sum(a) AS s, collect(arr) AS arrs FROM stream GROUP BY k, TumblingWindow('2s') WITH (TIMESTAMP='ts', TIMEUNIT='ms')", false, false},
 		{"case-expr", "SELECT CASE WHEN a > 1 THEN s ELSE 'low' END AS r, d FROM stream", true, false},
+		// multi-column analytic output is merged into the working row
+		{"changed-cols", "SELECT k, changed_cols(\"c_\", true, a, s) FROM stream", true, false},
+		{"where-analytic-over", "SELECT a FROM stream WHERE lag(a) OVER (PARTITION BY k) > 0 OR a > 0", true, false},
+		{"global-window", "SELECT k, sum(a) AS s FROM stream GROUP BY k, GLOBAL WINDOW TRIGGER WHEN count(*) >= 2", false, false},
+		{"session", "SELECT k, count(*) AS c, collect(d) AS ds FROM stream GROUP BY k, SessionWindow('2s') WITH (TIMESTAMP='ts', TIMEUNIT='ms')", false, false},
+		{"cep", "SELECT * FROM stream MATCH_RECOGNIZE (PARTITION BY k ORDER BY ts MEASURES LAST(a) AS la, FIRST(d.x) AS fx ALL ROWS PER MATCH PATTERN (A B) DEFINE A AS a > 0, B AS a > 0)", false, false},
 	}
 }
 
@@ -297,7 +303,7 @@ func (c20) Run(u fw.Unit) fw.Result {
 func (c20) Describe(tier string) fw.Description {
 	return fw.Description{
 		Level: "model_checking",
-		Rule: "(a) immutability: 10 query kinds (projection, *, SELECT-analytic, WHERE-analytic, OVER, JOIN, function-expression group key, counting, tumbling, CASE) x {Emit, EmitSync} x rows with nested maps and slices: a deep snapshot of every caller map before the call must equal it after quiescence, and every batch handed to a sink must still read the same at the end; (b) independence: 9 instance pairs (same SQL; nth_value(v,1) vs (v,2); percentile(v,0) vs (v,1); the same expression text over differently typed rows; analytic; LIKE; CASE vs string concatenation) x all input sequences of length 1..L per instance x ALL interleavings of the two inputs at operation granularity in one process, compared with each instance alone after VerifResetGlobals(); non-trivial = some output exists",
+		Rule: "(a) immutability: 15 query kinds (projection, *, SELECT-analytic, WHERE-analytic with and without OVER, OVER, changed_cols, JOIN, function-expression group key, counting, tumbling, session, global window, MATCH_RECOGNIZE, CASE) x {Emit, EmitSync} x rows with nested maps and slices: a deep snapshot of every caller map before the call must equal it after quiescence, and every batch handed to a sink must still read the same at the end; (b) independence: 9 instance pairs (same SQL; nth_value(v,1) vs (v,2); percentile(v,0) vs (v,1); the same expression text over differently typed rows; analytic; LIKE; CASE vs string concatenation) x all input sequences of length 1..L per instance x ALL interleavings of the two inputs at operation granularity in one process, compared with each instance alone after VerifResetGlobals(); non-trivial = some output exists",
 		Bounds:      map[string]any{"max_len_per_instance": map[string]int{"quick": 2, "thorough": 3}},
 		Assumptions: []string{"interleaving at Emit granularity under the eager deterministic schedule; finer interleavings of two instances' goroutines are not explored (they share only the function registry and the expression caches, whose internal synchronisation is in the quiet packages)"},
 	}
